@@ -1,1 +1,182 @@
-//! harness transports
+//! Harness transports: everything the client reads or writes goes through one of these, and
+//! every call is recorded (logical clock = call counter).
+
+use std::io::{self, Read, Write};
+use std::sync::{Arc, Mutex};
+
+// ------------------------------------------------------------------------------------------
+// FragmentingReader: holds a whole inbound stream and hands it out per a schedule of chunk sizes
+
+#[derive(Default)]
+pub struct FragState {
+    pub data: Vec<u8>,
+    pub pos: usize,
+    pub schedule: Vec<usize>,
+    pub sched_i: usize,
+    pub read_calls: u64,
+    pub reads_after_eof: u64,
+    pub max_request: usize,
+    pub written: Vec<u8>,
+    pub write_calls: u64,
+}
+
+#[derive(Clone)]
+pub struct FragmentingReader(pub Arc<Mutex<FragState>>);
+
+impl FragmentingReader {
+    pub fn new(data: Vec<u8>, schedule: Vec<usize>) -> Self {
+        let schedule = if schedule.is_empty() { vec![usize::MAX] } else { schedule };
+        FragmentingReader(Arc::new(Mutex::new(FragState { data, schedule, ..Default::default() })))
+    }
+    pub fn consumed(&self) -> usize {
+        self.0.lock().unwrap().pos
+    }
+    pub fn written(&self) -> Vec<u8> {
+        self.0.lock().unwrap().written.clone()
+    }
+    pub fn take_written(&self) -> Vec<u8> {
+        std::mem::take(&mut self.0.lock().unwrap().written)
+    }
+    pub fn push(&self, more: &[u8]) {
+        self.0.lock().unwrap().data.extend_from_slice(more);
+    }
+}
+
+impl Read for FragmentingReader {
+    fn read(&mut self, buf: &mut [u8]) -> io::Result<usize> {
+        let mut s = self.0.lock().unwrap();
+        s.read_calls += 1;
+        if buf.len() > s.max_request {
+            s.max_request = buf.len();
+        }
+        let rem = s.data.len() - s.pos;
+        if rem == 0 {
+            s.reads_after_eof += 1;
+            return Ok(0);
+        }
+        if buf.is_empty() {
+            return Ok(0);
+        }
+        let k = s.schedule[s.sched_i % s.schedule.len()].max(1);
+        s.sched_i += 1;
+        let n = buf.len().min(k).min(rem);
+        let p = s.pos;
+        buf[..n].copy_from_slice(&s.data[p..p + n]);
+        s.pos += n;
+        Ok(n)
+    }
+}
+
+impl Write for FragmentingReader {
+    fn write(&mut self, buf: &[u8]) -> io::Result<usize> {
+        let mut s = self.0.lock().unwrap();
+        s.write_calls += 1;
+        s.written.extend_from_slice(buf);
+        Ok(buf.len())
+    }
+    fn flush(&mut self) -> io::Result<()> {
+        Ok(())
+    }
+}
+
+// ------------------------------------------------------------------------------------------
+// AdversarialWriter: short writes per schedule, one injected error at a byte position
+
+#[derive(Clone, Copy, Debug, PartialEq, Eq)]
+pub enum Fault {
+    None,
+    /// hard error of this kind once `at` bytes have been accepted
+    Error { at: usize, kind: io::ErrorKind, transient: bool },
+    /// the stream accepts nothing any more (Ok(0)) once `at` bytes have been accepted
+    Zero { at: usize },
+}
+
+#[derive(Default)]
+pub struct AdvState {
+    pub accepted: Vec<u8>,
+    pub caps: Vec<usize>,
+    pub cap_i: usize,
+    pub fault: Option<Fault>,
+    pub fault_fired: u64,
+    pub write_calls: u64,
+    pub calls_after_error: u64,
+    pub inbound: Vec<u8>,
+    pub in_pos: usize,
+}
+
+#[derive(Clone)]
+pub struct AdversarialWriter(pub Arc<Mutex<AdvState>>);
+
+impl AdversarialWriter {
+    pub fn new(caps: Vec<usize>, fault: Fault, inbound: Vec<u8>) -> Self {
+        let caps = if caps.is_empty() { vec![usize::MAX] } else { caps };
+        AdversarialWriter(Arc::new(Mutex::new(AdvState { caps, fault: Some(fault), inbound, ..Default::default() })))
+    }
+    pub fn accepted(&self) -> Vec<u8> {
+        self.0.lock().unwrap().accepted.clone()
+    }
+    pub fn take_accepted(&self) -> Vec<u8> {
+        std::mem::take(&mut self.0.lock().unwrap().accepted)
+    }
+    pub fn fault_fired(&self) -> u64 {
+        self.0.lock().unwrap().fault_fired
+    }
+    pub fn set_fault(&self, f: Fault) {
+        let mut s = self.0.lock().unwrap();
+        s.fault = Some(f);
+    }
+}
+
+impl Write for AdversarialWriter {
+    fn write(&mut self, buf: &[u8]) -> io::Result<usize> {
+        let mut s = self.0.lock().unwrap();
+        s.write_calls += 1;
+        if s.fault_fired > 0 {
+            s.calls_after_error += 1;
+        }
+        if buf.is_empty() {
+            return Ok(0);
+        }
+        let done = s.accepted.len();
+        let mut room = usize::MAX;
+        match s.fault.unwrap_or(Fault::None) {
+            Fault::None => {}
+            Fault::Error { at, kind, transient } => {
+                if done >= at && !(transient && s.fault_fired > 0) {
+                    s.fault_fired += 1;
+                    return Err(io::Error::new(kind, "injected write fault"));
+                }
+                if done < at {
+                    room = at - done;
+                }
+            }
+            Fault::Zero { at } => {
+                if done >= at {
+                    s.fault_fired += 1;
+                    return Ok(0);
+                }
+                room = at - done;
+            }
+        }
+        let cap = s.caps[s.cap_i % s.caps.len()].max(1);
+        s.cap_i += 1;
+        let n = buf.len().min(cap).min(room);
+        s.accepted.extend_from_slice(&buf[..n]);
+        Ok(n)
+    }
+    fn flush(&mut self) -> io::Result<()> {
+        Ok(())
+    }
+}
+
+impl Read for AdversarialWriter {
+    fn read(&mut self, buf: &mut [u8]) -> io::Result<usize> {
+        let mut s = self.0.lock().unwrap();
+        let rem = s.inbound.len() - s.in_pos;
+        let n = rem.min(buf.len());
+        let p = s.in_pos;
+        buf[..n].copy_from_slice(&s.inbound[p..p + n]);
+        s.in_pos += n;
+        Ok(n)
+    }
+}
